@@ -230,6 +230,8 @@ def run(ck: Check, repo: Repo) -> None:
     _agents(ck, repo)
     from ._c15_r3b import run_r3b
     run_r3b(ck, repo)
+    from ._c15_r5 import run_r5
+    run_r5(ck, repo)
 
 
 # ------------------------------------------------------------------------------------------------ C15.11
